@@ -203,7 +203,8 @@ let run_case (line : string) =
            L.iter (fun rd -> outc (); out (string_of_int (int_of_n rd.Collection.rd_mid));
                     out ":"; out (class_name rd.Collection.rd_class)) others))
    | "access" ->
-     (* access <msg> : what the message object exposes and what inspect() prints *)
+     (* access <oracles> <msg> : what the message object exposes and what inspect() prints *)
+     let o = rd_oracles r in
      let m = rd_xml r in
      (match Classify.classify m with
       | Coq_inl e -> out "classerr "; out (exn_name e)
@@ -212,14 +213,20 @@ let run_case (line : string) =
          | None -> out "nobase"
          | Some b ->
            out (class_name k);
-           let ex = Inspect.exposed k b in
-           out " A"; out (string_of_int (L.length ex));
-           L.iter (fun (name, ids) -> outc (); pr_str name; outc (); out (string_of_int (L.length ids));
-                    L.iter (fun i -> outc (); pr_ostr i) ids) ex;
-           let xs = Inspect.exposed_xml k b in
-           out " X"; out (string_of_int (L.length xs));
-           L.iter (fun x -> outc (); pr_xml x) xs;
-           (match Inspect.inspect k b with
+           (match Inspect.exposed_err o k b with
+            | Some e -> out " Aerr "; out (exn_name e)
+            | None ->
+              let ex = Inspect.exposed k b in
+              out " A"; out (string_of_int (L.length ex));
+              L.iter (fun (name, ids) -> outc (); pr_str name; outc (); out (string_of_int (L.length ids));
+                       L.iter (fun i -> outc (); pr_ostr i) ids) ex);
+           (match Inspect.exposed_xml_err o k b with
+            | Some e -> out " Xerr "; out (exn_name e)
+            | None ->
+              let xs = Inspect.exposed_xml k b in
+              out " X"; out (string_of_int (L.length xs));
+              L.iter (fun x -> outc (); pr_xml x) xs);
+           (match Inspect.inspect_o o k b with
             | Coq_inl e -> out " Ierr "; out (exn_name e)
             | Coq_inr ls -> out " I"; out (string_of_int (L.length ls));
               L.iter (fun l -> outc (); pr_str l) ls)))
@@ -287,12 +294,13 @@ let run_case (line : string) =
      let ks = S3.get_mos_files pages suffix in
      out (string_of_int (L.length ks)); L.iter (fun k -> outc (); pr_str k) ks
    | "cli" ->
-     (* cli <inspect> <nfiles> then per file: <name> and D <doc>, B or U : detect / inspect output lines *)
+     (* cli <oracles> <inspect> <nfiles> then per file: <name> and D <doc>, B or U : detect / inspect output lines *)
+     let o = rd_oracles r in
      let insp = rd_bool r in
      let files = rd_list r (fun r -> let name = rd_str r in
                              let t = next r in
                              (name, if t = "D" then Cli.FDoc (rd_xml r) else if t = "B" then Cli.FBadXml else Cli.FUnreadable)) in
-     let (ls, status) = Cli.detect_cmd insp files in
+     let (ls, status) = Cli.detect_cmd o insp files in
      out (string_of_int (int_of_nat status)); outc (); out (string_of_int (L.length ls));
      L.iter (fun l -> outc (); match l with Cli.Out s -> out "O "; pr_str s | Cli.Err s -> out "E "; pr_str s) ls
    | "clim" ->
